@@ -21,7 +21,7 @@ func init() {
 	Registry["C05"] = Spec{
 		Fn:          c05,
 		Level:       "fault_enumeration",
-		Rule:        "round trips: payload lengths 0..512 (quick) / 0..4096 (thorough) and sizes up to 1 MiB / 8 MiB x {compressible, random, zero} x {None, LZ4, LZ4HC levels 0..13, ZSTD} x frame sequences 1..8 x read sizes {1,2,3,7,16,len-1,len,len+1,random}; reference parse of every frame (layout, checksum placement, limits). Fault enumeration: every offset of every frame x masks {0x01,0x80,0xFF} (thorough: all 255 values for frames <= 128 B), reads continued after every error, each output byte attributed to a verified frame through position-tagged payloads; size fields beyond 128 MiB must be rejected with a bounded allocation delta. Non-trivial = frame with >=1 payload byte; distinct = (method, level, length, offset, mask)",
+		Rule:        "round trips: payload lengths 0..512 (quick) / 0..4096 (thorough) and sizes up to 1 MiB / 8 MiB x {compressible, random, zero} x {None, LZ4, LZ4HC levels 0..13, ZSTD} x frame sequences 1..8 x read sizes {1,2,3,7,16,len-1,len,len+1,random}; reference parse of every frame (layout, checksum placement, limits). Fault enumeration: every offset of every frame x masks {0x01,0x80,0xFF} (thorough: all 255 values for frames <= 128 B), reads continued after every error, each output byte attributed to a verified frame through position-tagged payloads; size fields beyond 128 MiB must be rejected with a bounded allocation delta; every value 0..24 and the 2^8 / 2^16 / 128 MiB / 2^31 / 2^32 boundaries of the compressed-size field x 10 data-size values x 5 method bytes with a bogus checksum must be answered with an error (no panic, nothing delivered). Non-trivial = frame with >=1 payload byte; distinct = (method, level, length, offset, mask)",
 		Assumptions: []string{"CityHash128 (go-faster/city), pierrec/lz4 and klauspost/zstd are trusted primitives shared with the library; the frame layout is checked independently", "allocation measured with runtime/metrics /gc/heap/allocs:bytes"},
 		MinDistinct: 500,
 	}
@@ -223,6 +223,15 @@ func c05(r *core.Run) {
 			}
 		}
 	}
+	// ---- 4a. small and boundary values of the header's size fields ----
+	for _, method := range []byte{0x02, 0x82, 0x90, 0x00, 0xff} {
+		for _, raw := range c05HeaderVals() {
+			ci++
+			if r.Take(ci) {
+				c05HeaderFields(r, method, raw)
+			}
+		}
+	}
 	// ---- 4. size fields beyond the limits ----
 	for k := 0; k < r.Pick(200, 2000); k++ {
 		ci++
@@ -232,6 +241,57 @@ func c05(r *core.Run) {
 		rng := r.Rand(ci, "oversize")
 		c05Oversize(r, rng)
 	}
+}
+
+// c05HeaderFields: every small value and the boundaries of both size fields of a frame header,
+// for every method byte, with a checksum that cannot match: the reader must answer with an
+// error (no panic, nothing delivered), whatever the order of its checks.
+func c05HeaderVals() []uint32 {
+	var vals []uint32
+	for v := uint32(0); v <= 24; v++ {
+		vals = append(vals, v)
+	}
+	const lim = 128 << 20
+	return append(vals, 255, 256, 65535, 65536, lim-1, lim, lim+8, lim+9, lim+10, 1<<31-1, 1<<31, 1<<31+8, 1<<32-10, 1<<32-9, 1<<32-8, 1<<32-1)
+}
+
+func c05HeaderFields(r *core.Run, method byte, raw uint32) {
+	const lim = 128 << 20
+	{
+		{
+			for _, data := range []uint32{0, 1, 8, 9, 100, lim, lim + 1, 1<<31 - 1, 1 << 31, 1<<32 - 1} {
+				hdr := make([]byte, 25)
+				for i := 0; i < 16; i++ {
+					hdr[i] = byte(0x5a + i)
+				}
+				hdr[16] = method
+				binary.LittleEndian.PutUint32(hdr[17:], raw)
+				binary.LittleEndian.PutUint32(hdr[21:], data)
+				for _, tail := range []int{0, 3, 200} {
+					stream := append(append([]byte(nil), hdr...), make([]byte, tail)...)
+					r.Eval()
+					r.NonTrivial("header-fields", method, raw, data, tail)
+					cs := map[string]any{"method": method, "compressed_size_field": raw, "data_size_field": data, "bytes_after_header": tail}
+					rd := compress.NewReader(bytes.NewReader(stream))
+					buf := make([]byte, 64)
+					var n int
+					var err error
+					before := allocBytes()
+					if perr := core.Recover(func() { n, err = rd.Read(buf) }); perr != "" {
+						r.Violation("Reader:header-field-panic", fmt.Sprintf("method %#x, compressed size field %d, data size field %d: %s", method, raw, data, perr), cs)
+						continue
+					}
+					if err == nil || n > 0 {
+						r.Violation("Reader:unverified-frame-accepted", fmt.Sprintf("method %#x, size fields %d/%d with a bogus checksum: Read returned n=%d err=%v", method, raw, data, n, err), cs)
+					}
+					if d := allocBytes() - before; d > 4<<20 && (raw > lim+9 || data > lim) {
+						r.Violation("Reader:oversize-allocates", fmt.Sprintf("size fields %d/%d: %d bytes allocated before the error %v", raw, data, d, err), cs)
+					}
+				}
+			}
+		}
+	}
+	r.Count("header_field_combinations", 30)
 }
 
 func isEOF(err error) bool {
